@@ -207,6 +207,31 @@ def plain_transport_clone(style):
     return None
 
 
+def clone_histories(style):
+    """-> None when every clone (clones of clones included) keeps its own message history: last_sent() /
+    last_received() of a client are those of ITS last call, None before it made one; else what was seen."""
+    client, _tr = make_client(style)
+    client.service.f("ORIG")
+    a, b = client.clone(), client.clone()
+    c = a.clone()
+    seen = []
+    if [x.last_sent() for x in (a, b, c)] != [None, None, None]:
+        seen.append("a clone that sent nothing has a history")
+    a.service.f("for-A")
+    b.service.f("for-B")
+    for name, cl, mark in (("original", client, "ORIG"), ("a", a, "for-A"), ("b", b, "for-B")):
+        sent = cl.last_sent()
+        text = "" if sent is None else sent.plain()
+        if mark not in text or any(m in text for m in ("ORIG", "for-A", "for-B") if m != mark):
+            seen.append("%s.last_sent() is not its own last request" % name)
+        rcv = cl.last_received()
+        if rcv is None or mark not in rcv.plain():
+            seen.append("%s.last_received() is not its own last reply" % name)
+    if c.last_sent() is not None or c.last_received() is not None:
+        seen.append("a clone of a clone that sent nothing shows another client's messages")
+    return seen or None
+
+
 def clone_and_call(client, arg):
     def fn():
         c2 = client.clone()
@@ -296,6 +321,11 @@ def run(ctx):
                      "the transport's options with the original)", {"style": style, "scenario": "clone-plain-transport"},
                      plain_transport_clone(style), "a clone with its own options")
         ctx.case(("clone-plain-transport", style), True)
+        hist = clone_histories(style)
+        ctx.case(("clone-histories", style), True)
+        if hist:
+            ctx.fail("clones do not each keep their own message history", {"style": style, "scenario": "clone-histories"},
+                     hist, "last_sent/last_received per client")
         # shared state: only memo cells may change during invocations
         fp0 = shared_fingerprint(client)
         for _ in range(3):
